@@ -415,7 +415,8 @@ class Interp:
     def dict_has(self, d, key):
         """membership with possibly templated keys: structural match, and refusal (undecided) when a
         non-structural alias is possible (same literal skeleton, different symbolic parts)."""
-        if isinstance(key, Obj) or is_sym(key):
+        if isinstance(key, Obj) or is_sym(key) or (isinstance(key, tuple) and any(is_sym(x) or isinstance(x, Obj) for x in key)):
+            # (a tuple key with symbolic components would be compared by object identity: equality is not decidable here)
             raise Unsupported("symbolic key lookup in concrete dict")
         if isinstance(key, Atom):
             key = Tpl([key])
@@ -1104,7 +1105,8 @@ class Interp:
             if isinstance(c, NativeAbs):
                 return c.setitem(self, k, v)
             if isinstance(c, (list, dict)):
-                if isinstance(k, Obj) or is_sym(k) or (isinstance(c, list) and isinstance(k, Tpl)):
+                if isinstance(k, Obj) or is_sym(k) or (isinstance(c, list) and isinstance(k, Tpl)) or \
+                        (isinstance(k, tuple) and any(is_sym(x) or isinstance(x, Obj) for x in k)):
                     raise Unsupported("symbolic subscript store")
                 if isinstance(c, dict):
                     self.dict_has(c, k)
